@@ -13,6 +13,7 @@ import (
 	"math"
 	"os"
 	"strings"
+	"syscall"
 	"time"
 )
 
@@ -262,6 +263,35 @@ func SetStdin(b []byte) {
 		w.Close()
 	}()
 	os.Stdin = r
+}
+
+// ErrStdinRead is the error a failing standard input returns.
+var ErrStdinRead = errors.New("verif: injected stdin read error")
+
+// SetStdinFailing makes standard input deliver b and then fail with a non-EOF error (an input read
+// error). Natively os.Stdin becomes one end of a unix stream socket pair whose peer is closed with
+// unread data in its own receive queue: reads return b and then ECONNRESET. Under the engine
+// (*os.File).Read serves b and then returns (0, ErrStdinRead).
+func SetStdinFailing(b []byte) { stdinFail(append([]byte(nil), b...), ErrStdinRead) }
+
+func stdinFail(b []byte, err error) {
+	fds, serr := syscall.Socketpair(syscall.AF_UNIX, syscall.SOCK_STREAM, 0)
+	if serr != nil {
+		panic(serr)
+	}
+	for len(b) > 0 {
+		n, werr := syscall.Write(fds[1], b)
+		if werr != nil {
+			panic(werr)
+		}
+		b = b[n:]
+	}
+	// one unread byte in the peer's queue turns its close into a connection reset for our end
+	if _, werr := syscall.Write(fds[0], []byte{0}); werr != nil {
+		panic(werr)
+	}
+	syscall.Close(fds[1])
+	os.Stdin = os.NewFile(uintptr(fds[0]), "/dev/stdin")
 }
 
 // ReadDirFn, when set, is what os.ReadDir(path) returns under the engine: the entry names (all
